@@ -704,6 +704,9 @@ def check_trace(run: Run) -> list[dict[str, Any]]:
         k, a = e["kind"], e["actor"]
         if k == "register":
             stack.append(a)
+        elif k == "register-failed":
+            # every registration the programs make is a valid one - also those made while the teardown is running
+            bad("teardown-registration-refused", f"registering callback {a} ({cbs[a]['route']} route) raised {e.get('error')}", cb=cbs[a])
         elif k == "begin":
             begun[a] = begun.get(a, 0) + 1
             if begun[a] > 1:
